@@ -45,6 +45,18 @@
 (* validity of the identity on a grid with >= 3 points per coordinate is     *)
 (* validity everywhere.                                                      *)
 (*                                                                          *)
+(* Hard walls.  The derivation above is for the proposal made ONCE.  The  *)
+(* state `outside` (first draw out of the cube) is FINAL under the intended  *)
+(* rule: _propose returns the point and the sweep rejects it (Kernel.tla,    *)
+(* OutReject).  Under the code-shaped rule Impl_Redraw the innovation is     *)
+(* drawn again with the same s, i.e. given s the proposal is conditioned on  *)
+(* landing inside: q(u'|u,s)/Pin(u,s) with Pin(u,s) = P(inside | u, s), a    *)
+(* state-dependent normaliser that the correction does not contain - the     *)
+(* mechanism for which TLC refutes detailed balance on the lattice           *)
+(* (Kernel.tla, Rule = "impl").  Pin is a Gaussian integral over the cube    *)
+(* and is not rational: for tpCN the rule is established by replay and the   *)
+(* consequence is confirmed by simulation only.                              *)
+(*                                                                          *)
 (* Folded coordinates.  With a periodic (reflective) coordinate the proposal *)
 (* density on the folded space is the image sum                              *)
 (*     qf(u -> u') = SUM_k q(u -> u' + k e_i)                                *)
@@ -67,9 +79,9 @@ CONSTANTS M,         \* lattice resolution: u = c/(2M), c odd
           MaxDraws,  \* bound on the redraw loop
           KImg       \* images |k| <= KImg are tabulated
 
-VARIABLES pc, mi, kinds, c, qf, shape2, scale, sq2, zs, prop, fol, ok, img
+VARIABLES pc, mi, kinds, c, qf, shape2, scale, sq2, zs, prop, fol, ok, img, accf, amb
 
-vars == <<pc, mi, kinds, c, qf, shape2, scale, sq2, zs, prop, fol, ok, img>>
+vars == <<pc, mi, kinds, c, qf, shape2, scale, sq2, zs, prop, fol, ok, img, accf, amb>>
 
 Kinds == {"hard", "periodic", "reflective"}
 
@@ -157,26 +169,26 @@ Init ==
     /\ kinds \in [1..Dm(mi) -> Kinds]
     /\ c \in Cube(Dm(mi))
     /\ qf = <<>> /\ shape2 = 0 /\ scale = <<>> /\ sq2 = 0 /\ zs = <<>> /\ prop = <<>> /\ fol = <<>> /\ ok = FALSE
-    /\ img = <<>>
+    /\ img = <<>> /\ accf = <<>> /\ amb = FALSE
 
 Dot ==
     /\ pc = "start"
     /\ qf' = <<Qf(mi, Diff(mi, c)), Det(mi)>>
     /\ pc' = "dot"
-    /\ UNCHANGED <<mi, kinds, c, shape2, scale, sq2, zs, prop, fol, ok, img>>
+    /\ UNCHANGED <<mi, kinds, c, shape2, scale, sq2, zs, prop, fol, ok, img, accf, amb>>
 
 GammaParams ==
     /\ pc = "dot"
     /\ shape2' = GammaShape2(mi)
     /\ scale' = GammaScale(mi, Diff(mi, c))
     /\ pc' = "params"
-    /\ UNCHANGED <<mi, kinds, c, qf, sq2, zs, prop, fol, ok, img>>
+    /\ UNCHANGED <<mi, kinds, c, qf, sq2, zs, prop, fol, ok, img, accf, amb>>
 
 DrawS ==
     /\ pc = "params"
     /\ sq2' \in SqS
     /\ pc' = "scaled"
-    /\ UNCHANGED <<mi, kinds, c, qf, shape2, scale, zs, prop, fol, ok, img>>
+    /\ UNCHANGED <<mi, kinds, c, qf, shape2, scale, zs, prop, fol, ok, img, accf, amb>>
 
 Propose(z) ==
     /\ zs' = Append(zs, z)
@@ -184,7 +196,9 @@ Propose(z) ==
     /\ fol' = FoldVec(kinds, prop', 2 * M * PD)
     /\ ok' = InBounds(kinds, fol', 2 * M * PD)
     /\ pc' = IF ok' THEN "done" ELSE "outside"
-    /\ UNCHANGED <<mi, kinds, c, qf, shape2, scale, sq2, img>>
+    /\ amb' = (amb \/ \E i \in DOMAIN prop' : prop'[i] % (2 * M * PD) = 0)   \* exactly on a wall / fold point: double
+                                                                          \* rounding may decide either way, not replayed
+    /\ UNCHANGED <<mi, kinds, c, qf, shape2, scale, sq2, img, accf>>
 
 Draw == pc = "scaled" /\ \E z \in [1..Dm(mi) -> Zs] : Propose(z)
 
@@ -218,9 +232,18 @@ Images ==
                         [w \in DOMAIN whichs |-> [q \in DOMAIN ks |-> TN(mi, n, ImgShift(kind, n2, axis, ks[q], whichs[w]))]],
                         [w \in DOMAIN whichs |-> [q \in DOMAIN ks |-> TN(mi, n2, ImgShift(kind, n, axis, ks[q], whichs[w]))]] >>]
     /\ pc' = "images"
-    /\ UNCHANGED <<mi, kinds, c, qf, shape2, scale, sq2, zs, prop, fol, ok>>
+    /\ UNCHANGED <<mi, kinds, c, qf, shape2, scale, sq2, zs, prop, fol, ok, accf, amb>>
 
-Next == Dot \/ GammaParams \/ DrawS \/ Draw \/ Impl_Redraw \/ Images
+\* _compute_acceptance_factor for the pairs (u, every lattice u'): << u', G(u') num, G(u) num, twice the exponent >>
+CubeSeq(d) == [j \in 1..Cardinality(Cube(d)) |-> [i \in 1..d |-> 2 * (((j - 1) \div (IF i = 1 THEN 1 ELSE M)) % M) + 1]]
+Factor ==
+    /\ pc = "start" /\ kinds = [i \in 1..Dm(mi) |-> "hard"]
+    /\ accf' = [j \in DOMAIN CubeSeq(Dm(mi)) |->
+                  <<CubeSeq(Dm(mi))[j]>> \o AccFactor(mi, Diff(mi, c), Diff(mi, CubeSeq(Dm(mi))[j]))]
+    /\ pc' = "factor"
+    /\ UNCHANGED <<mi, kinds, c, qf, shape2, scale, sq2, zs, prop, fol, ok, img, amb>>
+
+Next == Dot \/ GammaParams \/ DrawS \/ Draw \/ Impl_Redraw \/ Images \/ Factor
 
 Spec == Init /\ [][Next]_vars
 
@@ -228,7 +251,7 @@ Spec == Init /\ [][Next]_vars
 (* Properties (C03 b) *)
 
 TypeOK ==
-    /\ pc \in {"start", "dot", "params", "scaled", "outside", "done", "images"}
+    /\ pc \in {"start", "dot", "params", "scaled", "outside", "done", "images", "factor"}
     /\ c \in Cube(Dm(mi))
     /\ Det(mi) > 0
     /\ (Dm(mi) + Nu(mi)) % 2 = 0                   \* integer exponent (nu + d)/2
@@ -249,6 +272,13 @@ MixtureParams ==
         /\ shape2 = Dm(mi) + Nu(mi)
         /\ scale[1] * GammaRate(mi, Diff(mi, c))[1] = scale[2] * GammaRate(mi, Diff(mi, c))[2]   \* scale = 1/rate
         /\ scale[1] = 2 * qf[2] /\ scale[2] = Nu(mi) * qf[2] + qf[1]                              \* 2/(nu + dot)
+
+\* the correction is the ratio of the Student-t(nu) reference densities: exponent (nu + d)/2, sign as stated
+FactorShape ==
+    pc = "factor" => \A j \in DOMAIN accf :
+        /\ accf[j][4] = Dm(mi) + Nu(mi)
+        /\ accf[j][2] = GN(mi, Diff(mi, accf[j][1])) /\ accf[j][3] = GN(mi, Diff(mi, c))
+        /\ (accf[j][1] = c => accf[j][2] = accf[j][3])
 
 \* a returned proposal is inside the cube on the strictly-checked coordinates, folded ones in [0,1]
 ReturnedInside ==
